@@ -32,6 +32,8 @@ func runStream(name string, args []string) {
 		streamNl(o)
 	case "sc":
 		streamSc(o)
+	case "pl":
+		streamPl(o)
 	case "reg":
 		streamReg(o)
 	case "cb":
